@@ -13,11 +13,11 @@ RULE = ("Hypothesis (program, drive, subscribe) triples: C02-style handler progr
         "requests) whose handlers make observations with literal values to a SimCounter, SimTally, SimWeightedTally "
         "and SimPersistent created in construct_model (default event types, and a custom EventType via listen_to for "
         "the tally); replications with warm-up before / exactly on / between / after event times and beyond the end; "
-        "drive in {start, steps, stop()-pause, bounded runs}, optionally as a later replication on the same simulator and model; optionally a subscriber on every statistic for every "
+        "drive in {start, steps, stop()-pause, bounded runs}, optionally as a later replication on the same simulator and model, optionally with a second model (own simulator, same statistic keys) initialised/run in between; optionally a subscriber on every statistic for every "
         "StatEvents type. Oracle: ordinary Counter/Tally/WeightedTally/TimestampWeightedTally fed exactly the "
         "observations that the reference interpreter executes after the warm-up reset (persistent closed with "
         "end_observations(end)): every getter bit-identical; independent exact (Fraction) time-integral for the "
-        "persistent's mean; model.get_output_statistic(key) is the statistic; inside the subscriber's notify the "
+        "persistent's mean; model.get_output_statistic(key) is the statistic (after initialize and at the end); inside the subscriber's notify the "
         "payload equals the getter at that moment (NaN-aware) and the timestamp equals the simulator time. "
         "Non-trivial = >=1 observation exactly at the warm-up instant, >=1 before and >=2 after it.")
 ASSUMPTIONS = [
@@ -89,6 +89,7 @@ def strategy(tier):
         "k": st.integers(1, 10), "cuts": st.lists(st.integers(1, 9), min_size=1, max_size=3),
         "subscribe": st.booleans(),
         "reinit": st.sampled_from([None, None, None, "ended", "init", "bounded"]),
+        "other_model": st.sampled_from([None, None, "ended", "init"]),
     })
 
 
@@ -292,9 +293,33 @@ def run_case(case):
             far = r2.end + (7 if ck == "int" else 12.5)
             errs.append(h.run_piece(["run_up_to" if drive == "beyond" else "run_up_to_incl", _jt(far, ck)]))
         from pydsol.core.simulator import RunState
+        if case.get("other_model"):
+            # another model (own simulator, statistics under the same keys) is initialised (and run) in the same
+            # process while this one is initialised / paused: the statistics of a model belong to that model
+            out.label("other-model-alive=" + case["other_model"])
+            oprog = {"clock": "float", "cap": 40, "rep": {"start": (0.0).hex(), "warmup": (1.0).hex(),
+                                                           "length": (5.0).hex()},
+                     "root": [["rel", (1.0).hex(), 0, 5]],
+                     "nodes": [[["obs_c", 1], ["obs_t", (2.0).hex()], ["obs_p", (1.0).hex()], ["rel", (1.0).hex(), 0, 5]]]}
+            ho = Harness(oprog)
+            _install(ho.model, False, {"n": 0, "bad": []})
+            try:
+                ho.initialize()
+                if case["other_model"] == "ended":
+                    ho.run_piece(["start"])
+            finally:
+                if ho.finish():
+                    out.fail("thread-leak", "other model")
         for _ in range(3):
             if h.sim.run_state != RunState.ENDED:
                 errs.append(h.run_piece(["start"]))
+        for key, name in (("c", "cnt"), ("t", "tal"), ("w", "wt"), ("p", "per")):
+            try:
+                if h.model.get_output_statistic(name) is not h.model.stats[key] or \
+                        h.model.output_statistics().get(name) is not h.model.stats[key]:
+                    out.fail("output-statistic-identity-at-end", name)
+            except Exception as e:
+                out.fail("output-statistic-missing-at-end", [name, repr(e)])
         bad = [repr(e) for e in errs if e is not None and not (drive == "steps" and "simulator_time > run length" in repr(e))]
         if h.sim.run_state != RunState.ENDED:
             out.fail("not-ended", {"state": h.sim.run_state.name, "errors": bad[:3],
@@ -332,8 +357,6 @@ def run_case(case):
             out.fail("published-value-%s-%s" % (b[0], b[1]), published["bad"][:3])
         if case["subscribe"] and published["n"]:
             out.label("published-events-checked")
-        for w in ():
-            pass
     finally:
         if h.finish():
             out.fail("thread-leak", None)
